@@ -1,3 +1,6 @@
+#[cfg(feature = "verif")]
+#[allow(unused_imports)]
+use crate::verif::{core, std};
 use crate::{
     internal::{acquire_internal, Internal},
     pointer::KanalPtr,
@@ -102,6 +105,8 @@ impl<'a, T> SendFuture<'a, T> {
         if size_of::<T>() > size_of::<*mut T>() {
             // if its smaller than register size, it does not need pointer setup as data
             // will be stored in register address object
+            #[cfg(feature = "verif")]
+            crate::verif::read(self.data.as_ptr() as usize, size_of::<T>());
             core::ptr::read(self.data.as_ptr())
         } else {
             self.sig.assume_init()
@@ -112,6 +117,8 @@ impl<'a, T> SendFuture<'a, T> {
     #[inline(always)]
     unsafe fn drop_local_data(&mut self) {
         if size_of::<T>() > size_of::<*mut T>() {
+            #[cfg(feature = "verif")]
+            crate::verif::read(self.data.as_ptr() as usize, size_of::<T>());
             self.data.assume_init_drop();
         } else {
             self.sig.load_and_drop();
@@ -275,6 +282,8 @@ impl<'a, T> ReceiveFuture<'a, T> {
         if size_of::<T>() > size_of::<*mut T>() {
             // if T is smaller than register size, it does not need pointer setup as data
             // will be stored in register address object
+            #[cfg(feature = "verif")]
+            crate::verif::read(self.data.as_ptr() as usize, size_of::<T>());
             core::ptr::read(self.data.as_ptr())
         } else {
             self.sig.assume_init()
@@ -284,6 +293,8 @@ impl<'a, T> ReceiveFuture<'a, T> {
     #[inline(always)]
     unsafe fn drop_local_data(&mut self) {
         if size_of::<T>() > size_of::<*mut T>() {
+            #[cfg(feature = "verif")]
+            crate::verif::read(self.data.as_ptr() as usize, size_of::<T>());
             self.data.assume_init_drop();
         } else {
             self.sig.load_and_drop();
